@@ -1,0 +1,56 @@
+//go:build verif
+
+/*
+ Licensed to the Apache Software Foundation (ASF) under one
+ or more contributor license agreements.  See the NOTICE file
+ distributed with this work for additional information
+ regarding copyright ownership.  The ASF licenses this file
+ to you under the Apache License, Version 2.0 (the
+ "License"); you may not use this file except in compliance
+ with the License.  You may obtain a copy of the License at
+
+     http://www.apache.org/licenses/LICENSE-2.0
+
+ Unless required by applicable law or agreed to in writing, software
+ distributed under the License is distributed on an "AS IS" BASIS,
+ WITHOUT WARRANTIES OR CONDITIONS OF ANY KIND, either express or implied.
+ See the License for the specific language governing permissions and
+ limitations under the License.
+*/
+
+package events
+
+import (
+	"github.com/apache/yunikorn-scheduler-interface/lib/go/si"
+)
+
+// Verification hooks (build tag verif): access to the unexported ring buffer.
+
+type VerifRing struct {
+	rb *eventRingBuffer
+}
+
+func VerifNewRing(capacity uint64) *VerifRing {
+	return &VerifRing{rb: newEventRingBuffer(capacity)}
+}
+
+func (v *VerifRing) Add(ev *si.EventRecord) { v.rb.Add(ev) }
+
+func (v *VerifRing) Resize(n uint64) { v.rb.Resize(n) }
+
+func (v *VerifRing) GetEventsFromID(id, count uint64) ([]*si.EventRecord, uint64, uint64) {
+	return v.rb.GetEventsFromID(id, count)
+}
+
+func (v *VerifRing) GetRecentEvents(count uint64) []*si.EventRecord {
+	return v.rb.GetRecentEvents(count)
+}
+
+func (v *VerifRing) GetLastEventID() uint64 { return v.rb.GetLastEventID() }
+
+// Fields returns capacity, head, full, id, lowestId, resizeOffset.
+func (v *VerifRing) Fields() (uint64, uint64, bool, uint64, uint64, uint64) {
+	v.rb.RLock()
+	defer v.rb.RUnlock()
+	return v.rb.capacity, v.rb.head, v.rb.full, v.rb.id, v.rb.lowestId, v.rb.resizeOffset
+}
